@@ -4,6 +4,7 @@ import FeatModel.Lemmas.C16_assembly
 import FeatModel.Lemmas.C16_identities
 import FeatModel.Lemmas.C16_banded
 import FeatModel.Lemmas.C16_burgers
+import FeatModel.Lemmas.C16_blocked
 /-!
 # C16 — property theorems (statements only; proofs live in Lemmas/C16_*.lean)
 
@@ -271,3 +272,22 @@ theorem C16.burgers_sd_assembled {α : Type} [Field α] [LT α] [DecidableLT α]
 
 /-- a stagnation cell between two cells with flow, evaluated: the middle `local_delta` is 0, not the previous cell's value -/
 example : deltaSeq (⟨0, 6, 1, 1, true⟩ : Params Int) 0 [(1, 1), (0, 0), (2, 1)] = [6, 0, 8] := by decide
+
+/-- **block_route_agree**: reading the component `e = a*w + b` of every block of the blocked (BCSR) assembly gives exactly
+the data array of the scalar (CSR) assembly of the `(a,b)` components of the local block matrices — including failure
+(`none` on both sides) on an incomplete pattern. Hence: if the local matrices of a scalar block operator (e.g.
+`DuDvOperator(ir,ic)`) equal the `(ir,ic)` components of the local matrices of the blocked operator
+(`DuDvOperatorBlocked`), the assembled scalar matrix is the `(ir,ic)` block of the assembled blocked matrix, entry by
+entry, on every pattern, for every cell order. -/
+theorem C16.block_route_agree {α : Type} [Add α] [Mul α] [Zero α] (p : Pattern) (n e : Nat) (he : e < n)
+    (callsB : List (CellCallB α)) (hlen : ∀ c ∈ callsB, ∀ i j, (c.loc i j).length = n)
+    (calls : List (CellCall α)) (hmatch : calls = callsB.map fun c => c.comp e) :
+    (assembleB p n callsB).map (fun st => st.data.map fun b => b.getD e 0) = (assemble p calls).map (·.data) := by
+  rw [hmatch]
+  exact C16L.assembleB_proj n e he p callsB hlen
+
+/-- a blocked 2x2 assembly of two cells sharing a dof and its (0,1) component, evaluated -/
+example :
+    (assembleB (α := Int) ⟨2, 2, [0, 2, 4], [0, 1, 0, 1]⟩ 4
+      [⟨1, [0, 1], [0, 1], fun i j => [1, (i : Int) + 2 * j, 0, 1]⟩, ⟨2, [1], [1], fun _ _ => [1, 5, 0, 1]⟩]).map
+      (fun st => st.data.toList) = some [[1, 0, 0, 1], [1, 2, 0, 1], [1, 1, 0, 1], [3, 13, 0, 3]] := by decide
